@@ -1,11 +1,15 @@
 (* C01 - Linearization preserves the feasible set.  Statements, `exact`, Print Assumptions only.
-   STATUS: the full projection theorem below is the target; what is machine-checked today is listed as
-   *_partial theorems (affine stage, every lowering arm's row pattern, the soundness of all facts the
-   rewrites rely on).  The full statement is not claimed as proved. *)
+   STATUS: the full projection theorem is PROVED END TO END FOR THE AFFINE FRAGMENT (C01_projection_affine,
+   C01_projection_affine_statement_form): for a model whose constraints are affine after the pre-processing rewrites,
+   through every stage of `compile` - domain tightening, flatten / simplify, the logic-constraint test,
+   Exp::linearize, the main loop with its step bound, row-name de-duplication, variable sorting, coefficient
+   extraction, published domains.  For models with non-affine constraints (abs, min, max, logic) the statement below is
+   the target; machine-checked for them are the *_partial theorems (every lowering arm's row pattern in both
+   directions, the soundness of all facts the rewrites rely on, the frame property of the main loop). *)
 From Coq Require Import QArith Reals List String.
 From Rooc Require Import Base.XQ Model.Exp Model.Sem Model.Bounds Model.Linearize Model.Spec
   Proof.BoundsOfSound Proof.PropagateSound Proof.PublishedCompile Proof.LinAffine Proof.ArmLemmas
-  Proof.SimplifyMain Proof.FlattenSound Proof.LinFrame.
+  Proof.SimplifyMain Proof.FlattenSound Proof.LinFrame Proof.CompileAffine.
 Import ListNotations.
 Local Close Scope Q_scope.
 Local Open Scope R_scope.
@@ -19,6 +23,24 @@ Definition C01_projection_statement : Prop :=
     forall rho : string -> R,
       (exists rho', agree_on (declared_used m) rho rho' /\ sat_model m rho')
       <-> (exists sigma, agree_on (declared_used m) rho sigma /\ sat_linear L sigma).
+
+(* ---- proved end to end on the affine fragment: the compiled linear model has exactly the source's feasible set
+   (over the same assignment: no auxiliary variable is created), hence the projection statement above.
+   affine_model m: well-formed domains, every declared variable used, sides and objective plain arithmetic (no
+   division by zero), every constraint affine after flatten/simplify and not taken by the logic-constraint test,
+   published types inside the declared types. *)
+Theorem C01_projection_affine :
+  forall (m : model) (L : linmodel), affine_model m -> compile m = inr L ->
+    forall rho : string -> R, sat_model m rho <-> sat_linear L rho.
+Proof. intros m L AM HC. exact (proj1 (compile_affine_equiv m L AM HC)). Qed.
+Theorem C01_projection_affine_statement_form :
+  forall (m : model) (L : linmodel), affine_model m -> compile m = inr L ->
+    forall rho : string -> R,
+      (exists rho', agree_on (declared_used m) rho rho' /\ sat_model m rho')
+      <-> (exists sigma, agree_on (declared_used m) rho sigma /\ sat_linear L sigma).
+Proof. intros m L AM HC. exact (compile_affine_projection m L (declared_used m) AM HC). Qed.
+Theorem C01_projection_affine_nonvacuous : affine_model m0 /\ exists L, compile m0 = inr L.
+Proof. split; [exact m0_affine|exact m0_compiles]. Qed.
 
 (* ---- proved: affine stage.  On the affine fragment Exp::linearize emits no row, declares no variable and
    returns a context whose value equals the expression's value at every real assignment. *)
@@ -81,6 +103,7 @@ Proof. exact xor_reify. Qed.
 Theorem C01_frame_partial : forall fuel, pres (main_loop fuel).
 Proof. exact pres_main_loop. Qed.
 
+Print Assumptions C01_projection_affine.
 Print Assumptions C01_affine_partial.
 Print Assumptions C01_relied_bounds_partial.
 Print Assumptions C01_abs_exact_partial.
